@@ -1248,6 +1248,8 @@ class FortranFile:
 
     def check_file(self, obj_tree, max_line_length=-1, max_comment_line_length=-1):
         diagnostics = []
+        # Line length warnings belong to this check only
+        n_parse_errors = len(self.ast.parse_errors)
         if (max_line_length > 0) or (max_comment_line_length > 0):
             msg_line = f'Line length exceeds "max_line_length" ({max_line_length})'
             msg_comment = (
@@ -1276,6 +1278,7 @@ class FortranFile:
                         )
         errors, diags_ast = self.ast.check_file(obj_tree)
         diagnostics += diags_ast
+        del self.ast.parse_errors[n_parse_errors:]
         for error in errors:
             diagnostics.append(error.build(self))
         return diagnostics
